@@ -28,7 +28,7 @@ CHECKS = ["one breakdown row per critical edge (same edges, weights and types)",
 
 
 def gen_cases(seed, tier, n):
-    return pC08.gen_cases(seed, tier, n)
+    return pC08.gen_cases_shared(seed, tier, n)
 
 
 def run_impl(case, d):
